@@ -237,6 +237,9 @@ func (e2eFamily) Exec(id int, raw json.RawMessage) Case {
 	nPub, nConn := 0, 0
 	tags := map[string]bool{}
 
+	noticeAt := map[int]time.Time{} // survivor -> when its NotifyGossipLeave returned (its delayed removal is outstanding)
+	reapBase := map[int]int{}       // survivor -> broadcasts it had produced by then
+	voided := false                 // the machine was too slow for a timing the script depends on: the case is dropped
 	var lastRaw []string // the observation terms of the last collect, unsorted by kind
 	collect := func(acting string, withDeadline bool) (string, []string) {
 		var ts []string
@@ -348,6 +351,11 @@ func (e2eFamily) Exec(id int, raw json.RawMessage) Case {
 			off = in.Offs[o.N]
 		}
 		clk := int64(1000+10*si) + off
+		for _, t0 := range noticeAt {
+			if time.Since(t0) > 2500*time.Millisecond {
+				voided = true // a delayed removal may fire under another step's clock, or reach a gossip step
+			}
+		}
 		atomic.StoreInt64(&cl.curClock, clk)
 		if os.Getenv("VERIF_TIMING") != "" {
 			t0 := time.Now()
@@ -636,6 +644,49 @@ func (e2eFamily) Exec(id int, raw json.RawMessage) Case {
 			}
 			tags["peer-leave"] = true
 			opT = fmt.Sprintf("EPeerLeave %s %s %s", cqNat(o.N), cqNat(o.Src), cqZ(clk))
+		case "peer_notice":
+			// NotifyGossipLeave up to its return: the removal of the failed peer's session records is left
+			// to a goroutine that fires three seconds later ("peer_reap" waits for it). The steps between
+			// the two must fit into that time; a case that is too slow for it is dropped (voided), never
+			// judged.
+			dead := cl.nodes[o.Src]
+			cl.mu.Lock()
+			cl.down[dead.id] = true
+			cl.mu.Unlock()
+			node.mm.NotifyGossipLeave(dead.id)
+			noticeAt[o.N] = time.Now()
+			syncMsg = settle(nil)
+			node.drain()
+			reapBase[o.N] = len(node.out)
+			tags["peer-notice"] = true
+			opT = fmt.Sprintf("EPeerNotice %s %s %s", cqNat(o.N), cqNat(o.Src), cqZ(clk))
+		case "peer_reap":
+			// the delayed removals at the survivors o.Peers, all under this step's clock
+			var ts []string
+			for _, p := range o.Peers {
+				t0, ok := noticeAt[p]
+				if !ok || time.Since(t0) > 2500*time.Millisecond {
+					voided = true
+				}
+			}
+			for _, p := range o.Peers {
+				nd := cl.nodes[p]
+				for dl := noticeAt[p].Add(5 * time.Second); nd.bcast.NumQueued() == 0 && len(nd.out) <= reapBase[p] && time.Now().Before(dl); {
+					time.Sleep(2 * time.Millisecond)
+				}
+				delete(noticeAt, p)
+				nd.drain()
+				ts = append(ts, fmt.Sprintf("(EPeerReap %s %s %s, [])", cqNat(p), cqNat(o.Src), cqZ(clk)))
+			}
+			syncMsg = settle(nil)
+			obsT, hs := collect("", false)
+			tags["peer-reap"] = true
+			if len(ts) == 0 {
+				return fmt.Sprintf("(EPanic, %s)", obsT), hs
+			}
+			// whatever was observed meanwhile (nothing should be) goes with the last removal
+			ts[len(ts)-1] = strings.Replace(ts[len(ts)-1], ", [])", ", "+obsT+")", 1)
+			return strings.Join(ts, "; "), hs
 		case "unreachable":
 			cl.mu.Lock()
 			cl.down = map[uint64]bool{}
@@ -691,8 +742,12 @@ func (e2eFamily) Exec(id int, raw json.RawMessage) Case {
 		obsAll = append(obsAll[:60], fmt.Sprintf("... %d more steps", len(obsAll)-60))
 	}
 	c.Obs = obsAll
+	if voided {
+		terms = nil
+		tags["voided-too-slow"] = true
+	}
 	c.Coq = fmt.Sprintf("(%s, %s, %s)", cqN(int64(id)), cqNat(in.Nodes), cqList(terms))
-	c.Nontrivial = nConn >= 2 && len(in.Ops) >= 4
+	c.Nontrivial = nConn >= 2 && len(in.Ops) >= 4 && !voided
 	c.Sig = string(raw)
 	for t := range tags {
 		c.Tags = append(c.Tags, t)
